@@ -2,7 +2,7 @@
   Model of src/icalendar/alarms.py (AlarmTime, Alarms) and of the VALARM accessors in cal.py
   (Alarm.TRIGGER / TRIGGER_RELATED / REPEAT / DURATION / ACKNOWLEDGED / triggers,
    create_utc_property for DTSTAMP / X-MOZ-LASTACK / X-MOZ-SNOOZE-TIME, Component.is_thunderbird).
-  Import-free: linked into the native driver.
+  Imports only ICal.Model.PyStr (`upper`): linked into the native driver.
 
   Conventions (DESIGN.md section 3)
   * an instant is an `Int` (UTC seconds); a `timedelta` is an `Int` (whole seconds);
@@ -20,6 +20,7 @@
   * the local time zone is an abstract `localize : Int → Int` (naive wall seconds to instant:
     `tzp.localize` followed by `normalize_pytz`).
 -/
+import ICal.Model.PyStr
 namespace ICal.Alarms
 
 /-- a `date` or `datetime` as seen by the alarm code -/
@@ -94,7 +95,7 @@ def TriggerV.toTrig : TriggerV → Trig
 structure VAlarm where
   /-- TRIGGER (absent = `none`) -/
   trigger : Option TriggerV := none
-  /-- the RELATED parameter of TRIGGER exactly as stored (no case folding) -/
+  /-- the RELATED parameter of TRIGGER as stored -/
   related : Option (List Char) := none
   /-- `int(self.get("REPEAT", 0))` -/
   rep : Int := 0
@@ -106,11 +107,13 @@ structure VAlarm where
 
 def START : List Char := ['S', 'T', 'A', 'R', 'T']
 
-/-- `Alarm.TRIGGER_RELATED`: "START" without a TRIGGER or without the parameter -/
+/-- `Alarm.TRIGGER_RELATED`: "START" without a TRIGGER or without the parameter, else the parameter
+    value upper-cased (`str(...).upper()`; ASCII upper-casing here, the driver answers `unmodelled`
+    for a non-ASCII value). Every value other than "START" then counts as END. -/
 def VAlarm.triggerRelated (a : VAlarm) : List Char :=
   match a.trigger with
   | none => START
-  | some _ => a.related.getD START
+  | some _ => upper (a.related.getD START)
 
 /-- the loop `for _ in range(n): add.append(add[-1] + duration)` started from `[x]` -/
 def cumul {α : Type} (plus : α → Int → α) (d : Int) : Nat → α → List α
